@@ -71,8 +71,14 @@ def run(tier, args):
     else:
         jobs = make_jobs(tier, chk.seed, args.scale)
 
+    # a job takes 2-20 s of CPU; the watchdog only exists for a pool that loops forever (seen with a mutated reset())
+    watchdog = 200 if tier == "quick" else 1500
+
     def one(argv):
-        rc, out, err = common.run_child([exe] + argv, timeout=3000)
+        try:
+            rc, out, err = common.run_child([exe] + argv, timeout=watchdog)
+        except common.HarnessError as e:
+            return argv, None, b"", str(e).encode()
         return argv, rc, out, err
 
     tot = {k: 0 for k in SUM_KEYS}
